@@ -1,5 +1,5 @@
 """harness/real_disc.py — real-side adapters for automatic discovery and retrieval (C05, C06, C07)."""
-import ast, inspect, warnings, functools
+import ast, inspect, warnings, functools, types
 from . import core, corpus, treeser
 import sigtools
 from sigtools import _autoforwards, _util, specifiers, signatures
@@ -145,7 +145,7 @@ def load_prog(p, execute=True, decorators=()):
         w = mod.C.__dict__['wrapper']
     core.register_callable(w, 1)
     for k in range(len(p['callees'])):
-        g = getattr(mod, 'g%d' % k)
+        g = mod._callees[k] if p['route'] == 'closure' else getattr(mod, 'g%d' % k)
         core.register_callable(g, 10 + k)
         if p['route'] == 'self':
             core.register_callable(mod.C.__dict__['m%d' % k], 10 + k)
@@ -288,6 +288,8 @@ def rt_declared(req):
                         callee = getattr(inst, 'm%d' % k)
                     elif p['route'] == 'param':
                         callee = getattr(mod, 'g0')
+                    elif p['route'] == 'closure':
+                        callee = mod._callees[k]
                     else:
                         callee = getattr(mod, 'g%d' % k)
                     csig = specifiers.signature(callee)
@@ -388,7 +390,7 @@ def rt_variants(req):
             w = vmod.C.__dict__['wrapper'] if p['route'] == 'self' else (vmod.target.func if p['route'] == 'param' else vmod.target)
             core.register_callable(w, 1)
             for k in range(len(p['callees'])):
-                core.register_callable(getattr(vmod, 'g%d' % k), 10 + k)
+                core.register_callable(vmod._callees[k] if p['route'] == 'closure' else getattr(vmod, 'g%d' % k), 10 + k)
                 if p['route'] == 'self':
                     core.register_callable(vmod.C.__dict__['m%d' % k], 10 + k)
             if p['route'] == 'param':
@@ -576,6 +578,27 @@ def rt_sphinx(req):
             return ('ok', tuple(problems), 'raised')
         if not (isinstance(r, tuple) and len(r) == 2 and all(isinstance(x, str) for x in r)):
             problems.append('sphinx-hook-result: process_signature(%s) returned %r' % (name, r))
+        elif r[0] != '(PASSED)':
+            # "returns the string forms of the evaluated signature": when retrieval adds nothing to what inspect reports,
+            # the strings are those of inspect.signature(obj, eval_str=True) -- computed without sigtools
+            try:
+                with warnings.catch_warnings():
+                    warnings.simplefilter('ignore')
+                    tgt = o
+                    plain = inspect.signature(tgt)
+                    same = str(sigtools.signature(tgt)) == str(plain)
+                    # only PEP 563 (`from __future__ import annotations`) annotations are evaluated; strings written by
+                    # hand in an eagerly compiled module are values
+                    import __future__
+                    fut = bool(getattr(tgt, '__code__', None) and tgt.__code__.co_flags & __future__.annotations.compiler_flag)
+                    ev = inspect.signature(tgt, eval_str=True) if fut else plain
+            except Exception:  # noqa  (not evaluable / no signature: nothing to compare with)
+                same = False
+            if same and isinstance(tgt, types.FunctionType) and '.' not in f.__qualname__:
+                want_ret = '' if ev.return_annotation is ev.empty else repr(ev.return_annotation)
+                want = (str(ev.replace(return_annotation=ev.empty)), want_ret)
+                if r != want:
+                    problems.append('sphinx-hook-strings: process_signature(%s) returned %r, the evaluated signature reads %r' % (name, r, want))
     finally:
         signal.alarm(0)
         signal.signal(signal.SIGALRM, old)
@@ -686,3 +709,52 @@ def rt_adversarial(req):
 
 
 RT.update({'retrieve': rt_retrieve, 'sphinx': rt_sphinx, 'adversarial': rt_adversarial})
+
+
+# ----------------------------------------------------------------------------- C15: algebra failures become the fallback
+_FALLBACK_SRC = """
+def one(a): return a
+def kwo(*, k): return k
+def star_named(kwargs): return kwargs
+def f_too_many(*args, **kwargs): return one(1, 2, *args, **kwargs)
+def f_unknown_kw(*args, **kwargs): return one(*args, zzz=3, **kwargs)
+def f_twice(*args, **kwargs): return one(1, *args, a=2, **kwargs)
+def f_pos_to_kwo(*args, **kwargs): return kwo(1, *args, **kwargs)
+def f_homonym(*args): return star_named(*args)
+def f_two_incompatible(*args, **kwargs):
+    one(*args, **kwargs)
+    return kwo(*args, **kwargs)
+def f_ok(*args, **kwargs): return one(*args, **kwargs)
+"""
+
+
+def rt_fallback(req):
+    """a forwarding call whose written arguments do not fit the callee (mask / forwards / merge raise ValueError or
+    IncompatibleSignatures): retrieval must return the plain signature, never let the exception out"""
+    from . import progs
+    mod, fname = progs.load_module(_FALLBACK_SRC)
+    problems = []
+    try:
+        for name in sorted(n for n in vars(mod) if n.startswith('f_')):
+            f = getattr(mod, name)
+            with warnings.catch_warnings():
+                warnings.simplefilter('ignore')
+                plain = signatures.signature(f)
+                try:
+                    got = sigtools.signature(f)
+                except Exception as e:  # noqa
+                    problems.append('fallback-raises: sigtools.signature(%s) raised %s: %s (the body is `%s`)' % (
+                        name, type(e).__name__, e, inspect.getsource(f).strip().split(chr(10))[-1].strip()))
+                    continue
+            if name not in ('f_ok', 'f_homonym') and str(got) != str(plain):
+                problems.append('fallback-not-plain: sigtools.signature(%s) = %s, plain %s' % (name, got, plain))
+            if name == 'f_ok' and str(got) != '(a)':
+                problems.append('fallback-control: sigtools.signature(f_ok) = %s, expected (a)' % (got,))
+            if name == 'f_homonym' and str(got) != '(kwargs, /)':
+                problems.append('fallback-control: sigtools.signature(f_homonym) = %s, expected (kwargs, /)' % (got,))
+    finally:
+        progs.unload(fname)
+    return ('ok', tuple(problems[:3]), 'probed')
+
+
+RT['fallback'] = rt_fallback
